@@ -68,7 +68,8 @@ func GetObject(rootGoitPath string, hash sha.SHA1) (*Object, error) {
 		return nil, fmt.Errorf("fail to read header: %w", err)
 	}
 
-	data, err := io.ReadAll(tr)
+	// not more than the header announces (one byte more shows that there is more)
+	data, err := io.ReadAll(io.LimitReader(tr, int64(size)+1))
 	if err != nil {
 		return nil, ErrIOHandling
 	}
